@@ -1,12 +1,12 @@
 ENTRY = dict(
-    runner="C23", pkg="./cmd/c23", corr=["Corr.C23Corr"], n=dict(quick=200, thorough=6000), runner_timeout=3000,
+    runner="C23", pkg="./cmd/c23", corr=["Corr.C23Corr"], n=dict(quick=160, thorough=6000), runner_timeout=3000,
     rule="UQUICConn (4 TLS 1.3-only custom QUIC specs with quic_transport_parameters, HelloGolang, 3 predefined non-QUIC ids) "
          "paired with the package's QUICServer; CRYPTO data delivered in random chunks in random client/server order; one of 20 "
          "injections per run (none, HRR via server CurvePreferences, no ServerName, MinVersion below 1.3, unbuildable hello, "
          "server ALPN alert, certificate verification failure, context cancelled before Start / mid-handshake, Close mid-handshake, "
          "data at the wrong level, ids without quic_transport_parameters, HelloGolang with parameters before/after the "
          "TransportParametersRequired event, Close/cancel while that event is pending, session ticket after completion); every "
-         "client call under a 2 s watchdog. Distinct by (scenario, call trace); non-trivial when the handshake completed or the "
+         "client call under a 2 s watchdog (a call still blocked after a further 4 s grace period is a hang). Distinct by (scenario, call trace); non-trivial when the handshake completed or the "
          "trace has more than 6 calls.",
     trusted_base=["Go runtime scheduler and channel semantics (modelled as rendez-vous steps)", "the package's own QUICServer as the peer",
                   "script reconstruction in the runner (events drained after each call = events created during it)"],
